@@ -159,6 +159,53 @@ def run(ck):
                     lead = (2, "Bv", "Bp") if expand else (2, "B")
                     want = lead + (layout_dim(p.interp, p.interp.get_attr(s, "rbm_am", None)),)
                     ck.check(g.shape == want, "C03.R2", inst + ":segments in parameter registration order", psite, "layout %s, expected %s" % (show(g.shape), show(want)))
+    # ---------------- R6 (Pi): the gradient of Pi goes through the sigmoid of Pi's own argument
+    for phase in (False, True):
+        for expand in (True, False):
+            inst = "DensityMatrix.pi_grad/phase=%s/expand=%s" % (phase, expand)
+            psite = prog.method("DensityMatrix", "pi_grad").site()
+            with ck.guard("C03.R6", inst, psite):
+                def thq(it):
+                    s = make_state(it, "DensityMatrix")
+                    v, vp = (tens(it, "v", ("Bv", "nv")), tens(it, "vp", ("Bp", "nv"))) if expand else (tens(it, "v", ("B", "nv")), tens(it, "vp", ("B", "nv")))
+                    g = call(it, s, "pi_grad", v, vp, phase=VConst(phase), expand=VConst(expand))
+                    return role_terms(it, it.get_attr(s, "rbm_am", None)), role_terms(it, it.get_attr(s, "rbm_ph", None)), g
+
+                for p in returning(paths_of(prog, thq), inst):
+                    Ra, Rp, g = p.value
+                    v, vp = T.sym("v"), T.sym("vp")
+                    ma, mpa = aff(v, Ra["U"], Ra["d"]), aff(vp, Ra["U"], Ra["d"])
+                    mp_, mpp = T.app("matmul", v, T.app("t", Rp["U"])), T.app("matmul", vp, T.app("t", Rp["U"]))
+                    if expand:
+                        row = lambda t: T.app("unsq", t, -2, 3)  # noqa: E731
+                        col = lambda t: T.app("unsq", t, -3, 3)  # noqa: E731
+                    else:
+                        row = col = lambda t: t  # noqa: E731
+                    x_ref = T.Fraction(1, 2) * (row(ma) + col(mpa))
+                    f_ref = T.Fraction(1, 2) * (row(mp_) - col(mpp))
+                    sc = [c for c in p.calls if c[0].endswith("cplx.sigmoid")]
+                    ck.check(len(sc) == 1, "C03.R6", inst + ":one complex sigmoid", psite, "cplx.sigmoid is evaluated %d times" % len(sc))
+                    if len(sc) != 1:
+                        continue
+                    gx, gy = sc[0][7].get("x"), sc[0][7].get("y")
+                    # the phase network's auxiliary bias is held at its documented value 0 (C02's quantifier, C20.R5):
+                    # compare under that invariant
+                    dph = Rp["d"].single_atom().name
+                    gx = T.rename_syms(gx, {dph: T.ZERO}) if gx is not None else None
+                    gy = T.rename_syms(gy, {dph: T.ZERO}) if gy is not None else None
+                    for nm, got, want in (("real", gx, x_ref), ("imaginary", gy, f_ref)):
+                        d = lin_diff(got, want)
+                        ck.check(diff_verdict(d), "C03.R6", inst + ":%s part of the sigmoid argument = Pi's argument" % nm, psite,
+                                 "the %s part of the argument of the sigmoid in pi_grad differs from the argument of Pi ((U_am s + d + U_am s' + d)/2 resp. (U_ph s - U_ph s')/2): %s" % (nm, diff_msg(d)), got=got, want=want)
+                    es = [c for c in p.interp.ext_calls if c[0] == "torch.einsum" and "pi_grad" in c[3]]
+                    if len(es) == 1 and len(es[0][1]) == 3:
+                        tmp = es[0][1][2].term if isinstance(es[0][1][2], VTens) else None
+                        rv, cv = (T.app("unsq", v, -2, 3), T.app("unsq", vp, -3, 3)) if expand else (v, vp)
+                        want_t = rv - cv if phase else rv + cv
+                        d = lin_diff(tmp, want_t)
+                        ck.check(diff_verdict(d), "C03.R6", inst + ":dPi/dU multiplies sigmoid by (s %s s')" % ("-" if phase else "+"), psite, "the configuration factor of the U gradient: " + diff_msg(d), got=tmp)
+                    segs = getattr(g.obj, "segments", None)
+
     # num_pars equals the layout size
     for rbm in ("BinaryRBM", "PurificationRBM"):
         with ck.guard("C03.R2", rbm + ".num_pars"):
